@@ -2,25 +2,33 @@ import QipVerif.Lemmas.RenderLabels
 /-! C20: which boxes each circuit element writes on a wire (`opLabels`), and the invariant
 "the middle row of wire q reads as the labels of the elements so far". -/
 namespace QipVerif.Render
+variable {v : Variant}
 
 /-- the label of the element as the renderer prints it -/
 def opText : Op → Str
   | .meas _ _ => ['M']
   | .gate name argLabel _ _ => gateText name argLabel
+  | .glob name argLabel => gateText name argLabel
 
-/-- **Specification**: the boxed labels the element contributes to wire `q`.
+/-- the boxed labels a gate with a target list contributes to wire `q` -/
+def gateLabels (name : Str) (argLabel : Option Str) (targets : List Nat) (controls : Option (List Nat))
+    (q : Nat) : List Str :=
+  if targets.length = 1 ∧ controls = none then (if targets = [q] then [gateText name argLabel] else [])
+  else if name = swapName then []
+  else if q = lmin targets then [gateText name argLabel]
+  else if q = lmax targets then [rep (gateText name argLabel).length ' ']
+  else []
+
+/-- **Specification**: the boxed labels the element contributes to wire `q` (of `N` qubits).
 A plain one-qubit gate / a measurement: its label on its target.  A SWAP: none (it has no box).
 Any other gate: its label on the lowest target wire, and — the box being closed there — a blank
-label of the same length on the highest target wire (if different). -/
-def opLabels (op : Op) (q : Nat) : List Str :=
+label of the same length on the highest target wire (if different).  A gate on the whole
+register (drawn by the repaired tree only): as a gate whose targets are all the qubits. -/
+def opLabels (N : Nat) (op : Op) (q : Nat) : List Str :=
   match op with
   | .meas targets _ => (targets.filter fun t => t = q).map fun _ => ['M']
-  | .gate name argLabel targets controls =>
-    if targets.length = 1 ∧ controls = none then (if targets = [q] then [gateText name argLabel] else [])
-    else if name = swapName then []
-    else if q = lmin targets then [gateText name argLabel]
-    else if q = lmax targets then [rep (gateText name argLabel).length ' ']
-    else []
+  | .gate name argLabel targets controls => gateLabels name argLabel targets controls q
+  | .glob name argLabel => gateLabels name argLabel (List.range N) none q
 
 /-- label with its `ceil(gate_pad)` blanks on both sides -/
 def padded (p : Nat) (t : Str) : Str := rep p ' ' ++ t ++ rep p ' '
@@ -58,8 +66,8 @@ theorem updCbridge_scan (N t0 store : Nat) (wl : List Nat) (width : Nat) :
       simp only []
       split <;> exact bar3 _ _ _ (by decide) (by decide) (by decide) (by decide) _
 
-theorem updQbridge_scan (ts cs wl : List Nat) (width : Nat) (isTop : Bool) :
-    ∀ a ∈ updQbridge ts cs wl width isTop, scan none a.2.mid = ([], none) := by
+theorem updQbridge_scan (v : Variant) (ts cs wl : List Nat) (width : Nat) (isTop : Bool) :
+    ∀ a ∈ updQbridge v ts cs wl width isTop, scan none a.2.mid = ([], none) := by
   intro a ha
   obtain ⟨w, _, h⟩ := List.mem_filterMap.mp ha
   split at h
@@ -83,10 +91,17 @@ theorem drawSingleq_scan (p : Nat) (t : Str) (h : noGlyph t = true) :
 theorem drawMeas_mid (p N t0 store : Nat) : (drawMeas p N t0 store).mid = (drawSingleq p ['M']).mid := by
   unfold drawMeas; split <;> rfl
 
-theorem drawMultiq_mids (p : Nat) (text : Str) (ts : List Nat) (cs : Option (List Nat)) :
-    (drawMultiq p text ts cs).midLabel = '─' :: '┤' :: (padded p text ++ ['├', '─']) ∧
-    (drawMultiq p text ts cs).midConnect = '─' :: '┤' :: (padded p (rep text.length ' ') ++ ['├', '─']) ∧
-    (drawMultiq p text ts cs).midFrame = ' ' :: '│' :: (padded p (rep text.length ' ') ++ ['│', ' ']) := by
+theorem noGlyph_setChar {s : Str} (i : Nat) {c : Char} (h1 : c ≠ '┤') (h2 : c ≠ '├') (hs : noGlyph s = true) :
+    noGlyph (setChar s i c) = true := by
+  unfold setChar
+  have hsub : ∀ x ∈ s, x ≠ '┤' ∧ x ≠ '├' := noGlyph_iff.mp hs
+  refine noGlyph_append (noGlyph_iff.mpr fun x hx => hsub x (List.mem_of_mem_take hx))
+    (noGlyph_cons h1 h2 (noGlyph_iff.mpr fun x hx => hsub x (List.mem_of_mem_drop hx)))
+
+theorem drawMultiq_mids (v : Variant) (p : Nat) (text : Str) (ts : List Nat) (cs : Option (List Nat)) :
+    (drawMultiq v p text ts cs).midLabel = '─' :: '┤' :: (padded p text ++ ['├', '─']) ∧
+    (drawMultiq v p text ts cs).midConnect = '─' :: '┤' :: (padded p (rep text.length ' ') ++ ['├', '─']) ∧
+    (drawMultiq v p text ts cs).midFrame = ' ' :: '│' :: (padded p (rep text.length ' ') ++ ['│', ' ']) := by
   unfold drawMultiq padded; split <;> exact ⟨rfl, rfl, rfl⟩
 
 theorem zip_range_range' (a n : Nat) :
@@ -114,59 +129,65 @@ theorem filter_range_eq (a n q : Nat) :
         simp [h1, h2, h3]
 
 /-- the boxes the target pass of a multi-qubit gate writes on wire `q` -/
-theorem updTargetMultiq_boxes (p : Nat) (text : Str) (ts : List Nat) (cs : Option (List Nat)) (hne : ts ≠ [])
-    (ht : noGlyph text = true) (q : Nat) :
-    (∀ a ∈ updTargetMultiq ts (pyRange (lmin ts) (lmax ts + 1)) (drawMultiq p text ts cs), (scan none a.2.mid).2 = none) ∧
-    ((updTargetMultiq ts (pyRange (lmin ts) (lmax ts + 1)) (drawMultiq p text ts cs)).filter fun a => a.1 = q).flatMap
-      (fun a => (scan none a.2.mid).1) =
+theorem updTargetMultiq_boxes (v : Variant) (p : Nat) (text : Str) (ts : List Nat) (cs : Option (List Nat))
+    (hne : ts ≠ []) (ht : noGlyph text = true) (q : Nat) :
+    (∀ a ∈ updTargetMultiq v ts (ctrlList cs) (pyRange (lmin ts) (lmax ts + 1)) (drawMultiq v p text ts cs),
+      (scan none a.2.mid).2 = none) ∧
+    ((updTargetMultiq v ts (ctrlList cs) (pyRange (lmin ts) (lmax ts + 1)) (drawMultiq v p text ts cs)).filter
+      fun a => a.1 = q).flatMap (fun a => (scan none a.2.mid).1) =
       (if q = lmin ts then [padded p text] else if q = lmax ts then [padded p (rep text.length ' ')] else []) := by
-  obtain ⟨m1, m2, m3⟩ := drawMultiq_mids p text ts cs
+  obtain ⟨m1, m2, m3⟩ := drawMultiq_mids v p text ts cs
   have hblank : noGlyph (rep text.length ' ') = true := noGlyph_rep _ _ (by decide) (by decide)
-  have s1 : scan none (drawMultiq p text ts cs).midLabel = ([padded p text], none) := by
+  have s1 : scan none (drawMultiq v p text ts cs).midLabel = ([padded p text], none) := by
     rw [m1]; exact scan_box _ (noGlyph_padded ht)
-  have s2 : scan none (drawMultiq p text ts cs).midConnect = ([padded p (rep text.length ' ')], none) := by
+  have s2 : scan none (drawMultiq v p text ts cs).midConnect = ([padded p (rep text.length ' ')], none) := by
     rw [m2]; exact scan_box _ (noGlyph_padded hblank)
-  have s3 : scan none (drawMultiq p text ts cs).midFrame = ([], none) := by
+  have hfr : noGlyph (drawMultiq v p text ts cs).midFrame = true := by
     rw [m3]
-    exact scan_noGlyph_none _ (noGlyph_cons (by decide) (by decide) (noGlyph_cons (by decide) (by decide)
-      (noGlyph_append (noGlyph_padded hblank) (by decide))))
+    exact noGlyph_cons (by decide) (by decide) (noGlyph_cons (by decide) (by decide)
+      (noGlyph_append (noGlyph_padded hblank) (by decide)))
+  have s3 : scan none (drawMultiq v p text ts cs).midFrame = ([], none) := scan_noGlyph_none _ hfr
+  have s4 : ∀ k, scan none (setChar (drawMultiq v p text ts cs).midFrame k '█') = ([], none) :=
+    fun k => scan_noGlyph_none _ (noGlyph_setChar k (by decide) (by decide) hfr)
+  -- the middle piece of every wire of the box
+  have hseg : ∀ n i w, scan none (targetSeg v ts (ctrlList cs) n (drawMultiq v p text ts cs) i w).mid =
+      (if ts.length = 1 then [padded p text]
+       else if i = 0 ∧ w ∈ ts then [padded p text]
+       else if i = n - 1 ∧ w ∈ ts then [padded p (rep text.length ' ')] else [], none) := by
+    intro n i w
+    unfold targetSeg
+    split
+    · exact s1
+    · split
+      · exact s1
+      · split
+        · exact s2
+        · simp only []
+          split
+          · exact s4 _
+          · exact s3
   have hmm : lmin ts ≤ lmax ts := lmin_le (lmax_mem hne)
   have hlen : (pyRange (lmin ts) (lmax ts + 1)).length = lmax ts + 1 - lmin ts := by simp [pyRange]
   constructor
   · intro a ha
-    obtain ⟨⟨i, w⟩, _, rfl⟩ := List.mem_map.mp ha
-    simp only []
-    split
-    · simp only [s1]
-    · split
-      · simp only [s1]
-      · split
-        · simp only [s2]
-        · simp only [s3]
+    obtain ⟨x, _, rfl⟩ := List.mem_map.mp ha
+    simp only [hseg]
   · unfold updTargetMultiq
     rw [hlen]
     unfold pyRange
     rw [zip_range_range', List.map_map, List.filter_map, List.flatMap_map]
     have hf : (List.range (lmax ts + 1 - lmin ts)).filter
         ((fun a : Nat × Seg => decide (a.1 = q)) ∘ ((fun x : Nat × Nat =>
-          if ts.length = 1 then (x.2, ({ top := (drawMultiq p text ts cs).top, mid := (drawMultiq p text ts cs).midLabel, bot := (drawMultiq p text ts cs).bot } : Seg))
-          else if x.1 = 0 ∧ x.2 ∈ ts then (x.2, { top := (drawMultiq p text ts cs).midFrame, mid := (drawMultiq p text ts cs).midLabel, bot := (drawMultiq p text ts cs).bot })
-          else if x.1 = lmax ts + 1 - lmin ts - 1 ∧ x.2 ∈ ts then (x.2, { top := (drawMultiq p text ts cs).top, mid := (drawMultiq p text ts cs).midConnect, bot := (drawMultiq p text ts cs).midFrame })
-          else (x.2, { top := (drawMultiq p text ts cs).midFrame, mid := (drawMultiq p text ts cs).midFrame, bot := (drawMultiq p text ts cs).midFrame })) ∘
+          (x.2, targetSeg v ts (ctrlList cs) (lmax ts + 1 - lmin ts) (drawMultiq v p text ts cs) x.1 x.2)) ∘
           fun i => (i, lmin ts + i)))
         = (List.range (lmax ts + 1 - lmin ts)).filter (fun i => decide (lmin ts + i = q)) := by
       apply List.filter_congr
       intro i _
-      simp only [Function.comp]
-      split
-      · rfl
-      · split
-        · rfl
-        · split <;> rfl
+      rfl
     rw [hf, filter_range_eq]
     by_cases hin : lmin ts ≤ q ∧ q - lmin ts < lmax ts + 1 - lmin ts
     · rw [if_pos hin]
-      simp only [List.flatMap_cons, List.flatMap_nil, List.append_nil, Function.comp]
+      simp only [List.flatMap_cons, List.flatMap_nil, List.append_nil, Function.comp, hseg]
       have hq : lmin ts + (q - lmin ts) = q := by omega
       by_cases hone : ts.length = 1
       · rw [if_pos hone]
@@ -174,19 +195,16 @@ theorem updTargetMultiq_boxes (p : Nat) (text : Str) (ts : List Nat) (cs : Optio
           match ts, hone with
           | [t], _ => exact ⟨t, rfl⟩
         have : q = lmin [t] := by simp only [lmin, lmax, List.foldl_nil] at hin ⊢; omega
-        simp only [s1, this, if_true]
+        simp only [this, if_true]
       · rw [if_neg hone]
         by_cases h0 : q = lmin ts
         · have hm : lmin ts + (q - lmin ts) ∈ ts := by rw [hq, h0]; exact lmin_mem hne
           rw [if_pos ⟨by omega, hm⟩, if_pos h0]
-          simp only [s1]
         · rw [if_neg (by intro h; exact h0 (by omega)), if_neg h0]
           by_cases h1 : q = lmax ts
           · have hm : lmin ts + (q - lmin ts) ∈ ts := by rw [hq, h1]; exact lmax_mem hne
             rw [if_pos ⟨by omega, hm⟩, if_pos h1]
-            simp only [s2]
           · rw [if_neg (by intro h; exact h1 (by omega)), if_neg h1]
-            simp only [s3]
     · rw [if_neg hin]
       have h0 : ¬ q = lmin ts := by intro h; exact hin (by omega)
       have h1 : ¬ q = lmax ts := by intro h; exact hin (by omega)
@@ -205,12 +223,98 @@ theorem updSingleq_boxes (wl : List Nat) (g : Seg) (l : List Str) (hg : scan non
     · rw [List.filter_cons_of_neg (by simpa using h), List.filter_cons_of_neg (by simpa using h)]
       exact ih
 
+/-- the boxes of the iteration of a gate with a target list -/
+theorem planGate_boxes {p : Nat} {name : Str} {argLabel : Option Str} {targets : List Nat}
+    {controls : Option (List Nat)} {pl : Plan} (h : planGate v p name argLabel targets controls = .ok pl)
+    (ht : noGlyph (gateText name argLabel) = true) (q : Nat) :
+    (∀ a ∈ pl.acts, (scan none a.2.mid).2 = none) ∧
+    (pl.acts.filter fun a => a.1 = q).flatMap (fun a => (scan none a.2.mid).1) =
+      (gateLabels name argLabel targets controls q).map (padded p) := by
+  simp only [planGate] at h
+  split at h
+  · -- single
+    rename_i h1
+    cases h
+    have hg := drawSingleq_scan p _ ht
+    obtain ⟨t, rfl⟩ : ∃ t, targets = [t] := by
+      match targets, h1.1 with
+      | [t], _ => exact ⟨t, rfl⟩
+    constructor
+    · intro a ha
+      obtain ⟨w, _, rfl⟩ := List.mem_map.mp ha
+      simp only [hg]
+    · rw [updSingleq_boxes _ _ _ hg]
+      simp only [gateLabels, h1, and_self, if_true]
+      by_cases htq : t = q
+      · subst htq; simp
+      · have : ¬ [t] = [q] := by simpa using htq
+        simp [htq, this]
+  · rename_i h1
+    split at h
+    · -- swap
+      rename_i h2
+      split at h
+      · cases h
+      · cases h
+        have hs := updSwap_scan p (pyRange (lmin targets) (lmax targets + 1))
+        constructor
+        · intro a ha; rw [hs a ha]
+        · rw [flatMap_filter_nil _ _ _ (fun a ha => by rw [hs a ha])]
+          simp [gateLabels, h1, h2]
+    · rename_i h2
+      split at h
+      · cases h
+      · rename_i hne
+        have hne' : targets ≠ [] := by intro h'; simp [h'] at hne
+        obtain ⟨b1, b2⟩ := updTargetMultiq_boxes v p (gateText name argLabel) targets controls hne' ht q
+        have hspec : (gateLabels name argLabel targets controls q).map (padded p) =
+            (if q = lmin targets then [padded p (gateText name argLabel)]
+             else if q = lmax targets then [padded p (rep (gateText name argLabel).length ' ')] else []) := by
+          simp only [gateLabels, h1, h2, if_false]
+          split
+          · rfl
+          · split <;> rfl
+        rw [hspec]
+        split at h
+        · cases h
+          have hq1 := fun it => updQbridge_scan v targets (ctrlList controls)
+            (pyRange (lmin targets) (lmax (ctrlList controls) + 1))
+            (drawMultiq v p (gateText name argLabel) targets controls).top.length it
+          have hq2 := fun it => updQbridge_scan v targets (ctrlList controls)
+            (pyRange (lmin (ctrlList controls)) (lmax targets + 1))
+            (drawMultiq v p (gateText name argLabel) targets controls).top.length it
+          constructor
+          · intro a ha
+            rcases List.mem_append.mp ha with ha | ha
+            · rcases List.mem_append.mp ha with ha | ha
+              · exact b1 a ha
+              · split at ha
+                · rw [hq1 _ a ha]
+                · cases ha
+            · split at ha
+              · rw [hq2 _ a ha]
+              · cases ha
+          · simp only [List.filter_append, List.flatMap_append]
+            rw [b2]
+            have e1 : ∀ (l : List (Nat × Seg)), (∀ a ∈ l, scan none a.2.mid = ([], none)) →
+                (l.filter fun a => a.1 = q).flatMap (fun a => (scan none a.2.mid).1) = [] :=
+              fun l hl => flatMap_filter_nil _ _ _ (fun a ha => by rw [hl a ha])
+            rw [e1, e1, List.append_nil, List.append_nil]
+            · split
+              · exact hq2 _
+              · intro a ha; cases ha
+            · split
+              · exact hq1 _
+              · intro a ha; cases ha
+        · cases h
+          exact ⟨b1, b2⟩
+
 /-- **the boxes of one iteration**: every appended middle piece is closed, and the boxes
 written on wire `q` are the (padded) labels of the specification `opLabels` -/
-theorem plan_boxes {p N C : Nat} {op : Op} {pl : Plan} (h : plan p N C op = .ok pl)
+theorem plan_boxes {p N C : Nat} {op : Op} {pl : Plan} (h : plan v p N C op = .ok pl)
     (ht : noGlyph (opText op) = true) (q : Nat) :
     (∀ a ∈ pl.acts, (scan none a.2.mid).2 = none) ∧
-    (pl.acts.filter fun a => a.1 = q).flatMap (fun a => (scan none a.2.mid).1) = (opLabels op q).map (padded p) := by
+    (pl.acts.filter fun a => a.1 = q).flatMap (fun a => (scan none a.2.mid).1) = (opLabels N op q).map (padded p) := by
   cases op with
   | meas targets store =>
     simp only [plan] at h
@@ -239,85 +343,11 @@ theorem plan_boxes {p N C : Nat} {op : Op} {pl : Plan} (h : plan p N C op = .ok 
         induction l with
         | nil => rfl
         | cons x l ih => simp only [List.flatMap_cons, List.map_cons, ih]; rfl
-  | gate name argLabel targets controls =>
-    simp only [opText] at ht
+  | gate name argLabel targets controls => exact planGate_boxes h ht q
+  | glob name argLabel =>
     simp only [plan] at h
     split at h
-    · -- single
-      rename_i h1
-      cases h
-      have hg := drawSingleq_scan p _ ht
-      obtain ⟨t, rfl⟩ : ∃ t, targets = [t] := by
-        match targets, h1.1 with
-        | [t], _ => exact ⟨t, rfl⟩
-      constructor
-      · intro a ha
-        obtain ⟨w, _, rfl⟩ := List.mem_map.mp ha
-        simp only [hg]
-      · rw [updSingleq_boxes _ _ _ hg]
-        simp only [opLabels, h1, and_self, if_true]
-        by_cases htq : t = q
-        · subst htq; simp
-        · have : ¬ [t] = [q] := by simpa using htq
-          simp [htq, this]
-    · rename_i h1
-      split at h
-      · -- swap
-        rename_i h2
-        split at h
-        · cases h
-        · cases h
-          have hs := updSwap_scan p (pyRange (lmin targets) (lmax targets + 1))
-          constructor
-          · intro a ha; rw [hs a ha]
-          · rw [flatMap_filter_nil _ _ _ (fun a ha => by rw [hs a ha])]
-            simp [opLabels, h1, h2]
-      · rename_i h2
-        split at h
-        · cases h
-        · rename_i hne
-          have hne' : targets ≠ [] := by intro h'; simp [h'] at hne
-          obtain ⟨b1, b2⟩ := updTargetMultiq_boxes p (gateText name argLabel) targets controls hne' ht q
-          have hspec : (opLabels (.gate name argLabel targets controls) q).map (padded p) =
-              (if q = lmin targets then [padded p (gateText name argLabel)]
-               else if q = lmax targets then [padded p (rep (gateText name argLabel).length ' ')] else []) := by
-            simp only [opLabels, h1, h2, if_false]
-            split
-            · rfl
-            · split <;> rfl
-          rw [hspec]
-          split at h
-          · cases h
-            have hq1 := fun it => updQbridge_scan targets (ctrlList controls)
-              (pyRange (lmin targets) (lmax (ctrlList controls) + 1))
-              (drawMultiq p (gateText name argLabel) targets controls).top.length it
-            have hq2 := fun it => updQbridge_scan targets (ctrlList controls)
-              (pyRange (lmin (ctrlList controls)) (lmax targets + 1))
-              (drawMultiq p (gateText name argLabel) targets controls).top.length it
-            constructor
-            · intro a ha
-              rcases List.mem_append.mp ha with ha | ha
-              · rcases List.mem_append.mp ha with ha | ha
-                · exact b1 a ha
-                · split at ha
-                  · rw [hq1 _ a ha]
-                  · cases ha
-              · split at ha
-                · rw [hq2 _ a ha]
-                · cases ha
-            · simp only [List.filter_append, List.flatMap_append]
-              rw [b2]
-              have e1 : ∀ (l : List (Nat × Seg)), (∀ a ∈ l, scan none a.2.mid = ([], none)) →
-                  (l.filter fun a => a.1 = q).flatMap (fun a => (scan none a.2.mid).1) = [] :=
-                fun l hl => flatMap_filter_nil _ _ _ (fun a ha => by rw [hl a ha])
-              rw [e1, e1, List.append_nil, List.append_nil]
-              · split
-                · exact hq2 _
-                · intro a ha; cases ha
-              · split
-                · exact hq1 _
-                · intro a ha; cases ha
-          · cases h
-            exact ⟨b1, b2⟩
+    · exact planGate_boxes h ht q
+    · cases h
 
 end QipVerif.Render
